@@ -87,3 +87,122 @@ func longChainRollbacks(maxL int, cfg Cfg) (pairs int, fail string) {
 	}
 	return pairs, ""
 }
+
+// longChainPrunes: the pruning analogue. For every pair (L, n) with 1 <= n < L <= maxL: L versions committed (with
+// commits without writes in between, so that reference roots and re-keyed roots occur), DeleteVersionsTo(n) in one
+// call or version by version, then the given oracles, one more commit, a reopen, the oracles again.
+func longChainPrunes(maxL int, cfg Cfg, oracles []Oracle) (pairs int, fail string) {
+	keys := bs("a", "ab", "b")
+	check := func(w *World, what string) string {
+		for _, o := range oracles {
+			o := o
+			if v := safely("oracle "+o.Name, func() *Violation { return o.Fn(w) }); v != nil {
+				return fmt.Sprintf("%s: %s/%s: %s", what, o.Name, v.Oracle, v.Detail)
+			}
+		}
+		return ""
+	}
+	for L := 2; L <= maxL; L++ {
+		for n := 1; n < L; n++ {
+			stepwise := (L+n)%2 == 0
+			pairs++
+			w := NewWorld(cfg)
+			what := fmt.Sprintf("cfg %s: %d versions committed, DeleteVersionsTo(%d) (version by version=%v)", cfg, L, n, stepwise)
+			apply := func(op Op) string {
+				if vv := w.Apply(op); vv != nil {
+					return fmt.Sprintf("%s: %s: %s", what, op, vv.Error())
+				}
+				return ""
+			}
+			f := ""
+			for i := 1; i <= L && f == ""; i++ {
+				k := keys[i%3]
+				switch {
+				case i == 1:
+					// the trees of this family never shrink below two keys: the known defects around single-leaf
+					// roots (leaked root record, phantom version) have their own findings and would mask the rest
+					for _, k0 := range keys {
+						if f == "" {
+							f = apply(Op{Kind: OpSet, Key: k0, Val: []byte("v1")})
+						}
+					}
+				case i%5 == 0 || (i%5 == 1 && i > 1):
+					// commits without writes, two in a row (versions 5,6, 10,11, ...)
+				case i%4 == 3:
+					if _, ok := w.M.WorkC[string(k)]; ok && len(w.M.WorkC) >= 3 {
+						f = apply(Op{Kind: OpRemove, Key: k})
+					} else {
+						f = apply(Op{Kind: OpSet, Key: k, Val: []byte(fmt.Sprintf("v%d", i))})
+					}
+				default:
+					f = apply(Op{Kind: OpSet, Key: k, Val: []byte(fmt.Sprintf("v%d", i))})
+				}
+				if f == "" {
+					f = apply(Op{Kind: OpSave})
+				}
+			}
+			if f == "" {
+				if stepwise {
+					for j := 1; j <= n && f == ""; j++ {
+						f = apply(Op{Kind: OpDelTo, Ver: int64(j)})
+					}
+				} else {
+					f = apply(Op{Kind: OpDelTo, Ver: int64(n)})
+				}
+			}
+			if f == "" {
+				f = check(w, what+": after the deletion")
+			}
+			if f == "" {
+				f = apply(Op{Kind: OpSet, Key: keys[(L+n)%3], Val: []byte("again")})
+			}
+			if f == "" {
+				f = apply(Op{Kind: OpSave})
+			}
+			if f == "" {
+				f = apply(Op{Kind: OpReopen, Cache: cfg.Cache, Fast: cfg.Fast, Flush: cfg.Flush})
+			}
+			if f == "" {
+				f = check(w, what+": after the next commit and reopening")
+			}
+			w.Close()
+			if f != "" {
+				return pairs, f
+			}
+		}
+	}
+	return pairs, ""
+}
+
+// runLongChainPrunes is the common driver used by C04, C12 and C14.
+func runLongChainPrunes(c *Ctx, r *Result, oracles []Oracle, cfgs []Cfg) {
+	if r.Found != nil {
+		return
+	}
+	maxL := 22
+	if c.Tier == "thorough" {
+		maxL = 64
+	}
+	total := 0
+	for _, cfg := range cfgs {
+		if len(r.Raw) > 0 {
+			break
+		}
+		n, fail := longChainPrunes(maxL, cfg, oracles)
+		total += n
+		if fail != "" {
+			if id := c.KF.MatchRaw(c.ID, fail); id != "" {
+				c.KF.NoteRaw(id, fail)
+				continue
+			}
+			rawViolation(c, r, fail, map[string]any{"cfg": cfg})
+		}
+	}
+	r.States += total
+	r.Transitions += total
+	if r.Extra == nil {
+		r.Extra = map[string]any{}
+	}
+	r.Extra["long_chain_prune_supplement"] = map[string]any{"max_latest_version": maxL, "prune_pairs": total,
+		"note": "fixed scenario family (not exhaustive over operations): for every (latest L, prune point n) a chain of L versions incl. commits without writes, DeleteVersionsTo(n) in one call or version by version, the check's oracles, one more commit, reopen, the oracles again"}
+}
